@@ -7,6 +7,7 @@ import TarpcModel.Driver.C15Stream
 import TarpcModel.Driver.C16
 import TarpcModel.Driver.C17
 import TarpcModel.Driver.C19
+import TarpcModel.Driver.Chain
 import TarpcModel.Driver.C20
 /-
 `driver model`   : reads `script`/`op` lines on stdin, prints `script`/`op`/`obs` lines produced by
@@ -29,6 +30,7 @@ def familyOf (name : String) : Option Family :=
   | "c17camel" => some c17camel
   | "c17svc" => some c17svc
   | "c19" => some c19
+  | "chain" => some chain
   | "c20rr" => some c20rr
   | "c20hash" => some c20hash
   | "c20retry" => some c20retry
